@@ -162,6 +162,75 @@ pub enum Req {
     Sdrop(u64),
     Into,
     Reorder(Vec<u32>),
+    // scheduled mode
+    SInit(Kind, usize),
+    Prog(usize, Vec<Stmt>),
+    Step(usize),
+}
+
+/// one statement of a thread program (scheduled mode)
+#[derive(Debug, Clone, PartialEq, Eq)]
+pub enum Stmt {
+    Lock { var: Variant, k: u32, soft: Option<usize> },
+    Op(usize, GOp),
+    Drop(usize),
+    Count,
+    Keys,
+}
+
+fn parse_stmt(s: &str) -> Option<Stmt> {
+    let toks: Vec<&str> = s.split_whitespace().collect();
+    Some(match toks.as_slice() {
+        ["lock", v, k] => Stmt::Lock {
+            var: Variant::parse(v)?,
+            k: nat(k)?,
+            soft: None,
+        },
+        ["lock", v, k, "soft", n] => {
+            let n: usize = nat(n)?;
+            if n == 0 {
+                return None;
+            }
+            Stmt::Lock {
+                var: Variant::parse(v)?,
+                k: nat(k)?,
+                soft: Some(n),
+            }
+        }
+        ["op", slot, rest @ ..] => {
+            let g = parse_gop(rest)?;
+            if g == GOp::Voiwp {
+                return None;
+            }
+            Stmt::Op(nat(slot)?, g)
+        }
+        ["drop", slot] => Stmt::Drop(nat(slot)?),
+        ["count"] => Stmt::Count,
+        ["keys"] => Stmt::Keys,
+        _ => return None,
+    })
+}
+
+/// `stmt;stmt;...` (empty pieces are ignored)
+pub fn parse_program(s: &str) -> Option<Vec<Stmt>> {
+    s.split(';').map(|p| p.trim()).filter(|p| !p.is_empty()).map(parse_stmt).collect()
+}
+
+impl fmt::Display for Stmt {
+    fn fmt(&self, f: &mut fmt::Formatter<'_>) -> fmt::Result {
+        match self {
+            Stmt::Lock { var, k, soft: None } => write!(f, "lock {} {}", var.name(), k),
+            Stmt::Lock { var, k, soft: Some(n) } => write!(f, "lock {} {} soft {}", var.name(), k, n),
+            Stmt::Op(slot, g) => write!(f, "op {slot} {g}"),
+            Stmt::Drop(slot) => write!(f, "drop {slot}"),
+            Stmt::Count => write!(f, "count"),
+            Stmt::Keys => write!(f, "keys"),
+        }
+    }
+}
+
+pub fn program_str(p: &[Stmt]) -> String {
+    p.iter().map(|s| s.to_string()).collect::<Vec<_>>().join(";")
 }
 
 impl Req {
@@ -183,6 +252,9 @@ impl Req {
             Req::Sdrop(_) => "sdrop",
             Req::Into => "into",
             Req::Reorder(_) => "reorder",
+            Req::SInit(..) => "sinit",
+            Req::Prog(..) => "prog",
+            Req::Step(_) => "step",
         }
     }
 }
@@ -245,7 +317,20 @@ fn parse_gop(toks: &[&str]) -> Option<GOp> {
 /// `None`: malformed line (`bad-op`)
 pub fn parse(line: &str) -> Option<Req> {
     let toks: Vec<&str> = line.trim().split(' ').filter(|t| !t.is_empty()).collect();
+    if let ["prog", t, ..] = toks.as_slice() {
+        // statements contain blanks and are separated by ';'
+        let rest = line.trim().strip_prefix("prog")?.trim_start().strip_prefix(t)?;
+        return Some(Req::Prog(nat(t)?, parse_program(rest)?));
+    }
     Some(match toks.as_slice() {
+        ["sinit", k, n] => {
+            let n: usize = nat(n)?;
+            if n == 0 || n > 16 {
+                return None;
+            }
+            Req::SInit(Kind::parse(k)?, n)
+        }
+        ["step", t] => Req::Step(nat(t)?),
         ["init", k] => Req::Init(Kind::parse(k)?),
         ["lock", v, h, k, h0, "none"] => Req::Lock {
             var: Variant::parse(v)?,
@@ -367,6 +452,9 @@ impl fmt::Display for Req {
                 }
                 Ok(())
             }
+            Req::SInit(k, n) => write!(f, "sinit {} {}", k.name(), n),
+            Req::Prog(t, p) => write!(f, "prog {} {}", t, program_str(p)),
+            Req::Step(t) => write!(f, "step {t}"),
         }
     }
 }
